@@ -1,6 +1,7 @@
 SPECIFICATION Spec
 CONSTANTS
   Configs <- QuickConfigs
+  JudgeBy = "last"
   CheckVHash = TRUE
 VIEW view
 INVARIANTS TypeOK CodeEqualsDecl AcceptImpliesLinked AcceptImpliesQuorumOfDistinctGoodSigners AcceptImpliesEverySlotVerifies VerifyCommitSound VerifyCommitEverySlotVerifies HeightOneEmptyCommit TamperAnyFieldRejected
